@@ -203,6 +203,11 @@ def make_io(script, interactive=True, pending=None, via="io"):
         io.set_interactive(False)
         if via == "section-after":
             io = io.section()
+        elif via == "stream-swapped":
+            # interaction is switched off first, the input stream is replaced afterwards (a redirected input attached late):
+            # the I/O is still non-interactive
+            inp = c["CountingInput"](text, k + 2)
+            io.input.set_stream(inp)
     return io, inp, out, err
 
 
@@ -550,13 +555,21 @@ def io_reuse_check(cfg, alphabet, vio_cap=3):
     on it: it must behave as on a fresh I/O holding those lines."""
     c = _classes()
     scripts = [()] + [(a,) for a in alphabet]
+    # first dialogues that may leave typed lines unread (two lines, the first one with a character of several bytes)
+    firsts = scripts + [(a, b) for a in ("Zo\u00eb \u2603", "x") for b in ("1", "a")]
     vs = []
     runs = 0
     fresh = {}
+
+    def fresh_of(s):
+        if s not in fresh:
+            fresh[s] = ask(make_choice(cfg), s)
+        return fresh[s]
+
     for s in scripts:
-        fresh[s] = ask(make_choice(cfg), s)
+        fresh_of(s)
         runs += 1
-    for s1 in scripts:
+    for s1 in firsts:
         for s2 in scripts:
             for how in ("set", "append"):
                 io, inp, out, err = make_io(s1)
@@ -566,11 +579,11 @@ def io_reuse_check(cfg, alphabet, vio_cap=3):
                     continue  # the first dialogue itself is broken: reported by the tree exploration
                 except Exception:
                     pass
-                inp.budget = 10 ** 9  # the probe below and the second dialogue get budgets of their own
-                if how == "append" and inp.read_line() != "":
-                    continue  # (only when the first dialogue left nothing unread is "append" the same as a fresh input)
+                inp.budget = 10 ** 9  # the second dialogue gets a budget of its own
+                # "append" keeps what the first dialogue left unread (every read_line took one typed line while there were any)
+                left = tuple(s1[min(inp.reads, len(s1)):]) if how == "append" else ()
                 reads0 = inp.reads
-                inp.budget = reads0 + len(s2) + 2
+                inp.budget = reads0 + len(left) + len(s2) + 2
                 err.clear()
                 err.writes = 0
                 getattr(inp, how)("".join(l + "\n" for l in s2))
@@ -582,7 +595,7 @@ def io_reuse_check(cfg, alphabet, vio_cap=3):
                 except Exception as e:
                     o2 = ("raise", "%s: %s" % (type(e).__name__, e))
                 runs += 2
-                f = fresh[s2]
+                f = fresh_of(left + s2)
                 got = (o2[0], o2[1], inp.reads - reads0, err.fetch())
                 if got != (f["outcome"], f["detail"], f["reads"], f["err"]):
                     if len(vs) < vio_cap:
@@ -711,7 +724,7 @@ def noninteractive_specs():
         for d in (True, False):
             out.append({"kind": "nonint", "q": "confirm", "pattern": p, "default": d})
     # the same on a section of the I/O, taken before / after interaction was switched off
-    return out + [dict(o, via=via) for via in ("section-before", "section-after") for o in out]
+    return out + [dict(o, via=via) for via in ("section-before", "section-after", "stream-swapped") for o in out]
 
 
 def build_nonint(spec):
